@@ -133,21 +133,51 @@ def _cell_of(container: ast.AST) -> Optional[Tuple[str, ...]]:
     return None
 
 
-def process_state_cells(mod) -> Dict[Tuple[str, ...], Tuple[ast.AST, str]]:
+def _imported_names(repo: Repo, mod) -> List[Tuple[str, str, object]]:
+    """(alias, name, origin module) for `from <module of the package> import name [as alias]`."""
+    cached = getattr(mod, "_c04_imported", None)
+    if cached is None:
+        cached = []
+        for alias, target in mod.imports.items():
+            head, _, nm = target.rpartition(".")
+            origin = repo.by_dotted.get(head)
+            if origin is not None and origin is not mod and nm:
+                cached.append((alias, nm, origin))
+        mod._c04_imported = cached  # type: ignore[attr-defined]
+    return cached
+
+
+def _static_classes(mod) -> Dict[str, ast.ClassDef]:
+    """Classes of the module that exist once per process (not created inside a function)."""
+    return {c.name: c for c in ast.walk(mod.tree) if isinstance(c, ast.ClassDef) and not any(isinstance(a, FuncNode) for a in ancestors(c))}
+
+
+def _class_of_receiver(recv: str, fn: ast.AST, classes: Dict[str, ast.ClassDef], local: Set[str]) -> Optional[str]:
+    if recv in ("cls", "self"):
+        for a in ancestors(fn):
+            if isinstance(a, ast.ClassDef):
+                return a.name if classes.get(a.name) is a else None
+            if isinstance(a, FuncNode):
+                return None
+        return None
+    return recv if recv in classes and recv not in local else None
+
+
+def process_state_cells(repo: Repo, mod) -> Dict[Tuple[str, ...], Tuple[ast.AST, str]]:
     """Module-level names and class-level attributes of *mod* that hold process-lifetime mutable state:
-    bound to a container where the module / class body is executed, and written by some function at run time
-    (store, delete, mutator call, or rebinding under ``global``).  Value: (a write site, writer qualname)."""
+    a module-level name bound to a container (or rebound under ``global``) / an attribute of a class that exists
+    once per process, written by some function at run time (store, delete, mutator call, rebinding).
+    Keys ('name', X) / ('attr', Class, X); value: (a write site, writer qualname)."""
     from .c04 import mutation_targets
 
     cached = getattr(mod, "_c04_state_cells", None)
     if cached is not None:
         return cached
-    names = _bindings(mod.tree.body)
-    class_attrs: Dict[str, Set[str]] = {}
-    for c in ast.walk(mod.tree):
-        if isinstance(c, ast.ClassDef):
-            for nm in _bindings(c.body):
-                class_attrs.setdefault(nm, set()).add(c.name)
+    names = dict(_bindings(mod.tree.body))
+    for alias, origin_name, origin in _imported_names(repo, mod):  # a container imported from another module of the package
+        if origin_name in _bindings(origin.tree.body):
+            names.setdefault(alias, origin.tree)
+    classes = _static_classes(mod)
     cells: Dict[Tuple[str, ...], Tuple[ast.AST, str]] = {}
     for f in ast.walk(mod.tree):
         if not isinstance(f, FuncNode):
@@ -157,6 +187,13 @@ def process_state_cells(mod) -> Dict[Tuple[str, ...], Tuple[ast.AST, str]]:
             if isinstance(n, ast.Global):
                 for nm in n.names:
                     cells.setdefault(("name", nm), (n, qualname_of(f)))
+            # rebinding a class attribute at run time: cls.X = ... / Class.X = ...
+            tgts = list(n.targets) if isinstance(n, ast.Assign) else [n.target] if isinstance(n, (ast.AugAssign, ast.AnnAssign)) else []
+            for t in tgts:
+                if isinstance(t, ast.Attribute) and isinstance(t.value, ast.Name) and t.value.id != "self" and not t.attr.startswith("__"):
+                    owner = _class_of_receiver(t.value.id, f, classes, local)
+                    if owner is not None:
+                        cells.setdefault(("attr", owner, t.attr), (n, qualname_of(f)))
         muts = list(mutation_targets(f))
         for c in calls_in(f):
             if isinstance(c.func, ast.Attribute) and c.func.attr == "pop":
@@ -167,30 +204,61 @@ def process_state_cells(mod) -> Dict[Tuple[str, ...], Tuple[ast.AST, str]]:
                 continue
             if cell[0] == "name" and cell[1] in names and cell[1] not in local:
                 cells.setdefault(cell, (st, qualname_of(f)))
-            elif cell[0] == "attr" and cell[2] in class_attrs and (cell[1] in ("cls", "self") or cell[1] in class_attrs[cell[2]]):
-                cells.setdefault(("attr", cell[2]), (st, qualname_of(f)))
+            elif cell[0] == "attr":
+                owner = _class_of_receiver(cell[1], f, classes, local)
+                # a container created in the class body is shared by the class and all its instances
+                if owner is not None and cell[2] in _bindings(classes[owner].body):
+                    cells.setdefault(("attr", owner, cell[2]), (st, qualname_of(f)))
     mod._c04_state_cells = cells  # type: ignore[attr-defined]
     return cells
 
 
+SINK_MUTATORS = {"append", "extend", "add", "update", "insert", "appendleft", "clear", "discard", "remove", "__setitem__"}
+
+
+def _write_only_use(n: ast.AST) -> bool:
+    """The occurrence *n* (a Name or `recv.attr`) only designates the cell being written: a store / delete target, or
+    the receiver of a mutator whose result is discarded (`X[k] = v`, `del X[k]`, `X.append(v)` as a statement).
+    Such an occurrence brings no earlier state into the computation."""
+    if isinstance(getattr(n, "ctx", None), (ast.Store, ast.Del)):
+        return True
+    cur, par = n, getattr(n, "_parent", None)
+    while isinstance(par, ast.Subscript) and par.value is cur:
+        if isinstance(par.ctx, (ast.Store, ast.Del)):
+            return not isinstance(getattr(par, "_parent", None), ast.AugAssign)
+        cur, par = par, getattr(par, "_parent", None)
+    if cur is n and isinstance(par, ast.Attribute) and par.value is n and par.attr in SINK_MUTATORS:
+        call = getattr(par, "_parent", None)
+        return isinstance(call, ast.Call) and call.func is par and isinstance(getattr(call, "_parent", None), ast.Expr)
+    return False
+
+
 def no_process_state(repo: Repo, R: Report, sl: List[Tuple[str, str, ast.AST]]) -> None:
     """C04-D3a: nothing the identities are computed from lives longer than the call."""
-    r = R.rule("C04-D3a-no-process-state", "no function reachable from the identity slice reads a module-level name or class attribute that holds a container written at run time (memo, cache, counter): an identity is a function of the configuration, not of what was built or run earlier in the process; registries that resolve names to classes are exempt", 40)
+    r = R.rule("C04-D3a-no-process-state", "no function reachable from the identity slice reads a module-level name or class attribute that holds state written at run time (memo, cache, counter): an identity is a function of the configuration, not of what was built or run earlier in the process; registries that resolve names to classes are exempt", 40)
     roots = [(repo.module(rel), f) for rel, _qn, f in sl]
     clo = repo.call_graph_closure(roots, stop=lambda m, n: m.rel.startswith(STATE_EXEMPT))
     for m, f, _path in sorted(clo.values(), key=lambda t: (t[0].rel, getattr(t[1], "lineno", 0))):
         if m.rel.startswith(STATE_EXEMPT):
             continue
-        cells = process_state_cells(m)
+        cells = process_state_cells(repo, m)
         qn = qualname_of(f)
         bad: List[Tuple[ast.AST, str, Tuple[ast.AST, str]]] = []
-        if cells:
+        imported = {alias: (nm, origin) for alias, nm, origin in _imported_names(repo, m)}
+        if cells or imported:
             local = _local_names(f)
+            classes = _static_classes(m)
             for n in walk_no_nested(f):
+                if _write_only_use(n):
+                    continue
                 if isinstance(n, ast.Name) and ("name", n.id) in cells and n.id not in local:
                     bad.append((n, n.id, cells[("name", n.id)]))
-                elif isinstance(n, ast.Attribute) and isinstance(n.value, ast.Name) and ("attr", n.attr) in cells and (n.value.id in ("cls", "self") or n.value.id[:1].isupper()):
-                    bad.append((n, f"{n.value.id}.{n.attr}", cells[("attr", n.attr)]))
+                elif isinstance(n, ast.Name) and n.id in imported and n.id not in local and ("name", imported[n.id][0]) in process_state_cells(repo, imported[n.id][1]):
+                    bad.append((n, n.id, process_state_cells(repo, imported[n.id][1])[("name", imported[n.id][0])]))
+                elif isinstance(n, ast.Attribute) and isinstance(n.value, ast.Name):
+                    owner = _class_of_receiver(n.value.id, f, classes, local)
+                    if owner is not None and ("attr", owner, n.attr) in cells:
+                        bad.append((n, f"{owner}.{n.attr}", cells[("attr", owner, n.attr)]))
         if not bad:
             R.ok(r, m.rel, qn, f"{qn}: no process-lifetime state read", "", getattr(f, "lineno", 0))
             continue
@@ -201,6 +269,207 @@ def no_process_state(repo: Repo, R: Report, sl: List[Tuple[str, str, ast.AST]]) 
             seen.add(label)
             st = stmt_of(n)
             R.violation(r, m.rel, qn, norm(st)[:110], f"`{label}` is process-lifetime mutable state (written by `{norm(site)[:70]}` in {writer}) and is read while an identity is computed: what was built or run earlier in the interpreter decides the value that is hashed, a fresh process gives another identity", getattr(n, "lineno", 0))
+
+
+# ---------------------------------------------------------------------------
+# D4 node fields written into the structure that compute_pipeline_semantic_id hashes
+# ---------------------------------------------------------------------------
+def _const_keys(fn: ast.AST, key: Optional[ast.AST]) -> List[str]:
+    """Values a subscript key can take: the constant, the constants a loop variable ranges over, else '*'."""
+    if isinstance(key, ast.Constant):
+        return [str(key.value)]
+    if isinstance(key, ast.Name):
+        out: List[str] = []
+        for n in ast.walk(fn):
+            tgt, it = (n.target, n.iter) if isinstance(n, (ast.For, ast.comprehension)) else (None, None)
+            if isinstance(tgt, ast.Name) and tgt.id == key.id:
+                if isinstance(it, (ast.Tuple, ast.List, ast.Set)) and it.elts and all(isinstance(e, ast.Constant) for e in it.elts):
+                    out.extend(str(e.value) for e in it.elts)
+                else:
+                    return ["*"]
+        vals = assigned_value(fn, key.id)
+        if vals and all(isinstance(v, ast.Constant) for v in vals) and not out:
+            return [str(v.value) for v in vals]
+        if out and not vals:
+            return out
+    return ["*"]
+
+
+def _dict_expr_keys(fn: ast.AST, e: ast.AST) -> Optional[List[Tuple[str, ast.AST]]]:
+    """Keys an expression adds on top of the mapping(s) it copies: {**node, 'k': v} -> k; dict(node, k=v) -> k;
+    dict(node) / node.copy() / copy.deepcopy(node) -> none.  None when *e* is not a recognisable copy-and-extend."""
+    if isinstance(e, ast.IfExp):
+        a, b = _dict_expr_keys(fn, e.body), _dict_expr_keys(fn, e.orelse)
+        return None if a is None or b is None else a + b
+    if isinstance(e, ast.Dict):
+        out = []
+        for k, v in zip(e.keys, e.values):
+            if k is None:
+                if isinstance(v, (ast.Dict, ast.IfExp)):
+                    sub = _dict_expr_keys(fn, v)
+                    out.extend(sub or [])
+                continue
+            out.extend((kk, e) for kk in _const_keys(fn, k))
+        return out
+    if isinstance(e, ast.Call) and call_attr(e) in ("dict", "copy", "deepcopy", "OrderedDict"):
+        return [(kw.arg or "*", e) for kw in e.keywords]
+    if isinstance(e, ast.BinOp) and isinstance(e.op, ast.BitOr):
+        a, b = _dict_expr_keys(fn, e.left), _dict_expr_keys(fn, e.right)
+        return (a or []) + (b or [])
+    return None
+
+
+def hashed_node_fields(fn: ast.AST) -> Optional[Dict[str, ast.AST]]:
+    """Fields this function writes into the node mappings of the spec it passes to compute_pipeline_semantic_id,
+    on top of what build_canonical_spec put there.  {field: writing statement}; None when no such call exists.
+
+    Roles, not names: <S> is the argument of compute_pipeline_semantic_id; <L> is what <S> holds under 'nodes';
+    a node mapping is an element appended to <L>, the element of the comprehension that builds <L>, a loop variable
+    over <L> / <S>['nodes'], or <S>['nodes'][i]."""
+    from .c04 import mutation_targets
+
+    calls = [c for c in calls_in(fn) if call_attr(c) == "compute_pipeline_semantic_id" and c.args]
+    if not calls:
+        return None
+    fields: Dict[str, ast.AST] = {}
+    spec_names: Set[str] = set()
+    list_names: Set[str] = set()
+    node_names: Set[str] = set()
+    elem_exprs: List[ast.AST] = []
+
+    def add_fields(e: ast.AST) -> None:
+        for k, site in _dict_expr_keys(fn, e) or []:
+            fields.setdefault(k, stmt_of(site))
+
+    def nodes_value(e: ast.AST) -> None:  # the expression stored under 'nodes'
+        if isinstance(e, ast.Name):
+            if e.id not in list_names:
+                list_names.add(e.id)
+                for v in assigned_value(fn, e.id):
+                    nodes_value(v)
+        elif isinstance(e, (ast.ListComp, ast.GeneratorExp)):
+            elem_exprs.append(e.elt)
+        elif isinstance(e, (ast.List, ast.Tuple)):
+            elem_exprs.extend(e.elts)
+        elif isinstance(e, ast.Call) and call_attr(e) in ("list", "tuple") and e.args:
+            nodes_value(e.args[0])
+        elif isinstance(e, ast.IfExp):
+            nodes_value(e.body)
+            nodes_value(e.orelse)
+
+    def spec_value(e: ast.AST) -> None:
+        if isinstance(e, ast.Name):
+            if e.id not in spec_names:
+                spec_names.add(e.id)
+                for v in assigned_value(fn, e.id):
+                    spec_value(v)
+        elif isinstance(e, ast.Dict):
+            for k, v in zip(e.keys, e.values):
+                if k is None:
+                    spec_value(v)
+                elif isinstance(k, ast.Constant) and k.value == "nodes":
+                    nodes_value(v)
+        elif isinstance(e, ast.IfExp):
+            spec_value(e.body)
+            spec_value(e.orelse)
+        elif isinstance(e, ast.Call) and call_attr(e) in ("dict", "copy", "deepcopy") and (e.args or isinstance(e.func, ast.Attribute)):
+            spec_value(e.args[0] if e.args else e.func.value)  # type: ignore[union-attr]
+            for kw in e.keywords:
+                if kw.arg == "nodes":
+                    nodes_value(kw.value)
+
+    for c in calls:
+        spec_value(c.args[0])
+
+    def is_nodes_expr(e: ast.AST) -> bool:
+        if isinstance(e, ast.Name):
+            return e.id in list_names
+        if isinstance(e, ast.Subscript) and isinstance(e.slice, ast.Constant) and e.slice.value == "nodes":
+            return isinstance(e.value, ast.Name) and e.value.id in spec_names
+        if isinstance(e, ast.Call) and call_attr(e) == "get" and isinstance(e.func, ast.Attribute) and e.args and isinstance(e.args[0], ast.Constant) and e.args[0].value == "nodes":
+            return isinstance(e.func.value, ast.Name) and e.func.value.id in spec_names
+        if isinstance(e, ast.Call) and call_attr(e) in ("enumerate", "list", "iter", "reversed") and e.args:
+            return is_nodes_expr(e.args[0])
+        return False
+
+    def is_node_expr(e: ast.AST) -> bool:
+        if isinstance(e, ast.Name):
+            return e.id in node_names
+        return isinstance(e, ast.Subscript) and not isinstance(e.slice, ast.Slice) and is_nodes_expr(e.value)
+
+    changed = True
+    while changed:
+        before = (len(list_names), len(node_names), len(elem_exprs))
+        for n in walk_no_nested(fn):
+            if isinstance(n, ast.Assign) and len(n.targets) == 1 and isinstance(n.targets[0], ast.Name):
+                if is_nodes_expr(n.value) and not isinstance(n.value, ast.Name):
+                    list_names.add(n.targets[0].id)
+                if is_node_expr(n.value):
+                    node_names.add(n.targets[0].id)
+            if isinstance(n, (ast.For, ast.comprehension)) and is_nodes_expr(n.iter):
+                tgt = n.target
+                if isinstance(tgt, ast.Tuple) and isinstance(n.iter, ast.Call) and call_attr(n.iter) == "enumerate" and len(tgt.elts) == 2:
+                    tgt = tgt.elts[1]
+                if isinstance(tgt, ast.Name):
+                    node_names.add(tgt.id)
+            if isinstance(n, ast.Call) and isinstance(n.func, ast.Attribute) and n.func.attr in ("append", "insert") and is_nodes_expr(n.func.value) and n.args:
+                el = n.args[-1]
+                if el not in elem_exprs:
+                    elem_exprs.append(el)
+        for el in list(elem_exprs):
+            if isinstance(el, ast.Name) and el.id not in node_names:
+                node_names.add(el.id)
+        changed = before != (len(list_names), len(node_names), len(elem_exprs))
+    for el in elem_exprs:
+        if not isinstance(el, ast.Name):
+            add_fields(el)
+    for nm in node_names:
+        for v in assigned_value(fn, nm):
+            add_fields(v)
+    muts = list(mutation_targets(fn))
+    for st, container in muts:
+        if not is_node_expr(container):
+            continue
+        keys: List[str] = []
+        tgts = list(st.targets) if isinstance(st, (ast.Assign, ast.Delete)) else [st.target] if isinstance(st, (ast.AugAssign, ast.AnnAssign)) else []
+        for t in tgts:
+            for el in (t.elts if isinstance(t, (ast.Tuple, ast.List)) else [t]):
+                if isinstance(el, ast.Subscript) and el.value is container:
+                    keys.extend(_const_keys(fn, el.slice))
+        for c in calls_in(st):
+            if isinstance(c.func, ast.Attribute) and c.func.value is container:
+                if c.func.attr == "update":
+                    got = [k for a in c.args for k, _s in (_dict_expr_keys(fn, a) or [("*", a)])] + [kw.arg or "*" for kw in c.keywords]
+                    keys.extend(got or ["*"])
+                elif c.func.attr == "setdefault" and c.args:
+                    keys.extend(_const_keys(fn, c.args[0]))
+                else:
+                    keys.append("*")
+        for k in keys or ["*"]:
+            fields.setdefault(k, st)
+    for c in calls_in(fn):  # removal of a field
+        if isinstance(c.func, ast.Attribute) and c.func.attr == "pop" and is_node_expr(c.func.value) and c.args:
+            for k in _const_keys(fn, c.args[0]):
+                fields.setdefault(k, stmt_of(c))
+    return fields
+
+
+def same_node_fields(repo: Repo, R: Report) -> None:
+    r = R.rule("C04-D4b-same-node-fields", "inspection and run time hand compute_pipeline_semantic_id node mappings with the same fields: whatever one path writes into the canonical nodes before hashing (preprocessor_metadata) the other path writes too, and nothing else", 2)
+    paths = ((BUILDER, "build_inspection_payload", "inspection"), (ORCH, "SemantivaOrchestrator.execute", "run time"))
+    got: List[Dict[str, ast.AST]] = []
+    for rel, qn, _label in paths:
+        fields = hashed_node_fields(nfunc(repo, rel, qn))
+        if not fields:
+            return  # no enrichment located on this path: instance shortfall -> ANALYSIS-ERROR (C05-D2 reports a dropped enrichment)
+        got.append(fields)
+    for i, (rel, qn, label) in enumerate(paths):
+        other_label = paths[1 - i][2]
+        for k, site in sorted(got[i].items()):
+            ok = k in got[1 - i] and k != "*"
+            R.check(ok, r, rel, qn, f"node[{k!r}] written before compute_pipeline_semantic_id: `{norm(site)[:70]}`",
+                    f"{label} writes node field {k!r} into the structure hashed by compute_pipeline_semantic_id, {other_label} does not ({other_label} writes {sorted(got[1 - i])}): the semantic id printed by inspect differs from the one on pipeline_start for configurations where that field is set" if k != "*" else
+                    f"{label} writes a node field whose name is not a constant into the structure hashed by compute_pipeline_semantic_id: agreement with {other_label} cannot be established", getattr(site, "lineno", 0))
 
 
 def run(repo: Repo, R: Report) -> None:
@@ -246,18 +515,20 @@ def run(repo: Repo, R: Report) -> None:
                 for jd in dumps:
                     sk = kwarg(jd, "sort_keys")
                     sorted_ok = isinstance(sk, ast.Constant) and sk.value is True
+                    why = "json.dumps without sort_keys on an unnormalised value"
                     if not sorted_ok:
-                        # normalised input: argument produced by a function that rebuilds dicts over sorted(...)
-                        a0 = jd.args[0] if jd.args else None
-                        vals = assigned_value(f, a0.id) if isinstance(a0, ast.Name) else [a0]
-                        sorted_ok = bool(vals) and all(isinstance(v, ast.Call) and call_attr(v) in ("normalize", "_normalize_run_space") for v in vals)
-                    R.check(sorted_ok, r_ord, rel, qn, norm(jd)[:90], "bytes that are hashed depend on mapping key order (json.dumps without sort_keys on an unnormalised value): reordering YAML keys changes the identity", jd.lineno)
+                        # normalised input: the value that reaches json.dumps was produced by a function that rebuilds every
+                        # mapping over sorted keys at every depth (through mappings and lists)
+                        sorted_ok, why = _normalised_before_dump(repo, rel, f, jd)
+                    R.check(sorted_ok, r_ord, rel, qn, norm(jd)[:90], f"bytes that are hashed depend on mapping key order ({why}): reordering YAML keys changes the identity", jd.lineno)
     if n_sites < 6:
         raise AnalysisError(f"only {n_sites} hashing sites found in the identity slice (10 confirmed by reading)")
     for rel, qn in ((IDENT, "RunSpaceIdentityService._rscf_v1"), (BUILDER, "_normalize_run_space")):
         f = repo.func(rel, qn)
         dcs = [n for n in ast.walk(f) if isinstance(n, ast.DictComp)]
         ok = bool(dcs) and all(isinstance(dc.generators[0].iter, ast.Call) and call_attr(dc.generators[0].iter) == "sorted" for dc in dcs)
+        nf = next((n for n in ast.walk(f) if isinstance(n, FuncNode) and order_normaliser_gap(n) is None), None)
+        R.check(nf is not None, r_ord, rel, qn, "normaliser descends through mappings and lists", "the RSCF normaliser does not reach every mapping (" + "; ".join(sorted({order_normaliser_gap(n) or "" for n in ast.walk(f) if isinstance(n, FuncNode)})) + "): key order of a mapping nested in a list changes the run-space spec id", f.lineno)
         R.check(ok, r_ord, rel, qn, "dicts rebuilt over sorted(keys)", "the RSCF normaliser keeps mapping order", f.lineno)
     # list order provenance in the sweep metadata
     create = repo.func(SWEEP, "ParametricSweepFactory.create")
@@ -302,6 +573,7 @@ def run(repo: Repo, R: Report) -> None:
             R.check(ok, r_same, rel, qn, f"{fname} -> {home}", f"{qn} does not compute this id with {home}:{fname} (a private re-implementation or a missing call)", f.lineno)
         ok, why = _config_id_pairs(repo, rel, qn)
         R.check(ok, r_same, rel, qn, "semantic_pairs.append((node_uuid, node_semantic_id))", f"the pairs hashed into config_id are not (node uuid, node semantic id): {why}", f.lineno)
+    same_node_fields(repo, R)
     for prefix, (home_rel, home_fn) in PREFIX_OWNERS.items():
         owners = []
         for mod, qn, f in repo.all_functions():
@@ -428,6 +700,69 @@ def _config_id_pairs(repo: Repo, rel: str, qualname: str) -> Tuple[bool, str]:
         rest_ok = all((isinstance(v, ast.Call) and call_attr(v) == "compute_node_semantic_id") or (isinstance(v, ast.Constant) and isinstance(v.value, str)) for v in flat)
         if not (has_id and rest_ok):
             return False, f"second component `{norm(b)[:50]}` is not compute_node_semantic_id(...) or a constant marker"
+    return True, ""
+
+
+def order_normaliser_gap(fn: ast.AST) -> Optional[str]:
+    """None when *fn* is a key-order normaliser: called on v it returns, for a mapping, a dict rebuilt over
+    ``sorted(...)`` of its keys with the values normalised recursively, and for a list, the list of the recursively
+    normalised items - so no mapping at any depth (also below lists) keeps insertion order.  Otherwise the reason."""
+    if not isinstance(fn, FuncNode) or not fn.args.args:
+        return "not a function of one value"
+    v = fn.args.args[0].arg
+    name = fn.name
+
+    def recursive(e: ast.AST) -> bool:
+        return any(isinstance(c, ast.Call) and isinstance(c.func, ast.Name) and c.func.id == name for c in ast.walk(e))
+
+    def over_param_sorted(it: ast.AST) -> bool:
+        return isinstance(it, ast.Call) and isinstance(it.func, ast.Name) and it.func.id == "sorted" and bool(it.args) and v in {x.id for x in ast.walk(it.args[0]) if isinstance(x, ast.Name)}
+
+    dict_ok = list_ok = False
+    for n in walk_no_nested(fn):
+        if isinstance(n, ast.DictComp):
+            if not (len(n.generators) == 1 and over_param_sorted(n.generators[0].iter)):
+                return f"{name}: a mapping is rebuilt in insertion order"
+            if recursive(n.value):
+                dict_ok = True
+        elif isinstance(n, ast.Dict) and any(k is None for k in n.keys):
+            return f"{name}: a mapping is copied in insertion order"
+        elif isinstance(n, (ast.ListComp, ast.GeneratorExp)) and len(n.generators) == 1:
+            it = n.generators[0].iter
+            if isinstance(it, ast.Name) and it.id == v and recursive(n.elt) and not n.generators[0].ifs:
+                list_ok = True
+    if not dict_ok:
+        return f"{name}: mappings are not rebuilt over sorted keys with normalised values"
+    if not list_ok:
+        return f"{name} does not descend into lists - a mapping inside a list keeps its key order"
+    return None
+
+
+def _normalised_before_dump(repo: Repo, rel: str, f: ast.AST, jd: ast.Call) -> Tuple[bool, str]:
+    """The first argument of the json.dumps call *jd* is, on every path, the result of a key-order normaliser."""
+    from ..cfg import CFG, reaching_defs
+
+    a0 = jd.args[0] if jd.args else None
+    if a0 is None:
+        return False, "json.dumps without a value"
+    vals: List[ast.AST] = [a0]
+    if isinstance(a0, ast.Name):
+        g = CFG(f, may_raise=lambda p: set())
+        uses = g.nodes_for(stmt_of(jd))
+        defs = reaching_defs(g, a0.id, uses[0]) if uses else []
+        vals = [d.ast.value for d in defs if isinstance(d.ast, (ast.Assign, ast.AnnAssign)) and getattr(d.ast, "value", None) is not None]
+        if not vals or len(vals) != len(defs):
+            return False, f"json.dumps without sort_keys on `{a0.id}`, which is not the result of a key-order normaliser"
+    mod = repo.module(rel)
+    for val in vals:
+        if not (isinstance(val, ast.Call) and isinstance(val.func, ast.Name)):
+            return False, f"json.dumps without sort_keys on an unnormalised value `{norm(val)[:50]}`"
+        target = next((n for n in ast.walk(f) if isinstance(n, FuncNode) and n is not f and n.name == val.func.id), None) or mod.defs.get(val.func.id)
+        if not isinstance(target, FuncNode):
+            return False, f"json.dumps without sort_keys on the result of `{val.func.id}`, which is not a function of this module"
+        gap = order_normaliser_gap(target)
+        if gap is not None:
+            return False, f"json.dumps without sort_keys, and {gap}"
     return True, ""
 
 
